@@ -124,3 +124,20 @@ package respondent
 //@
 //@ func (*socket).RemovePipe
 //@   may_close p.closeQ caller
+// ---- generated wake-on-close contracts (from `govc sites -select`) ----
+//@ func (*context).RecvMsg
+//@   before select#1 assert selwaits(c.closeQ)
+//@
+//@ func (*context).SendMsg
+//@   before select#1 assert selwaits(c.closeQ)
+//@
+//@ func (*pipe).receiver
+//@   before select#1 assert selwaits(p.s.closeQ)
+//@
+//@ func (*pipe).sender
+//@   before select#1 assert selwaits(p.closeQ)
+//@
+// ---- end generated wake-on-close contracts ----
+//@
+//@ func (*context).SendMsg
+//@   before select#1 assert selwaits(p.closeQ) && selsends(p.sendQ)
